@@ -41,7 +41,9 @@ EXPLANATION = (
     "is never a verdict by itself; R5 checks the batching structure; R7 folds the presence and length callbacks of every burst field that follows a "
     "mod bit field over all 256 values of (nope, mod, tsc): each value that announces a burst gets a length (the encoder emits all of them, so a code "
     "without a length is a PDU the definition encodes and cannot decode); R6 evaluates every PDU class value-level (0..8 batched sub-PDUs with "
-    "differing BATCH flags) against the block semantics applied to its own layout.")
+    "differing BATCH flags) against the block semantics applied to its own layout; R8 evaluates the encode direction of every modulation-driven "
+    "burst field (main part and batched sub-PDU) for all 16 modulation codes with a burst of exactly the length the field's length callback yields: "
+    "Field.to_bytes() with its check against the declared length must emit header + burst, and the octets decode back.")
 ASSUMPTIONS = [
     "the codec building blocks behave as modelled (C16 decides those laws on codec.py); R4/R6 evaluate codec.py itself",
     "spec/trxd.json transcribes the TRXD layouts; field names of the definitions are compared modulo the alias cir -> ci",
@@ -1506,6 +1508,147 @@ def r6_value_level(L, repo):
     return commit_families(L, fams, "PDU definitions evaluated value-level", 8)
 
 
+def _mod_bursts(ref):
+    """[(envelope, burst field)] of a reference description, batched item envelopes included: buffers whose length comes
+    from a callback and that follow a `mod` bit field of the same envelope"""
+    from rules import c16
+    out, seen = [], False
+    for f in ref.fields:
+        if isinstance(f, c16.RBits):
+            seen = seen or any(n == "mod" for n, bl, v in f.fields)
+        elif isinstance(f, c16.RBuf) and f.getlen is not None and seen:
+            out.append((ref, f))
+        elif isinstance(f, c16.RSeqF):
+            out += _mod_bursts(f.item)
+    return out
+
+
+def _neutral_vals(env, mod, flex, subs=()):
+    """value assignment with every field at its neutral value, nope = 0, the given modulation code and a burst of exactly the
+    length the burst field's own length callback (= what the decode direction consumes) yields for it; None outside the
+    callback's domain (R2/R7 decide that).  `flex` collects the burst fields whose declared length is lifted: the reference
+    outcome is the documented one (length by modulation only)."""
+    from rules import c16
+    vals = {}
+    for f in env.fields:
+        try:
+            if isinstance(f, c16.RBits):
+                for name, bl, val in f.fields:
+                    if name is not None:
+                        vals[name] = val if val is not None else (mod if name == "mod" else 0)
+            elif f.absent(vals) or isinstance(f, c16.RSpare):
+                continue
+            elif isinstance(f, c16.RInt):
+                vals[f.name] = f.offset
+            elif isinstance(f, c16.RSeqF):
+                vals[f.name] = [_neutral_vals(f.item, m, flex) for m in subs]
+                if any(x is None for x in vals[f.name]):
+                    return None
+            elif isinstance(f, c16.RBuf):
+                n = f.getlen(vals, bytes(4096)) if f.getlen is not None else f.len
+                if isinstance(n, bool) or not isinstance(n, int) or not 0 <= n <= 4096:
+                    return None
+                vals[f.name] = bytes((mod * 16 + x) & 0xff for x in range(n))
+                if f.getlen is not None and "mod" in vals:
+                    flex.append(f)
+            else:
+                return None
+        except c16.RefErr:
+            return None
+    return vals
+
+
+def r8_encode_by_modulation(L, repo):
+    """R8 (encode direction, evaluated).  Clauses: "the burst length is determined by the modulation bits" and "encodes to
+    the documented octet layout and decodes what it encodes".  For every PDU class with a modulation-driven burst field
+    (main part and batched sub-PDU) and every code 0..15 of `mod` for which the field's length callback yields a length n
+    (the length the decode direction consumes), to_bytes() of a PDU carrying exactly n burst octets is evaluated by the
+    concrete evaluator on codec.py / trxd_proto.py as they are - Field.to_bytes() with its check against self.len / DEF_LEN
+    included: it must yield header + n octets (the block semantics with the length taken from the modulation alone), and
+    from_bytes() of these octets must return the values.  A declared fixed length that contradicts the callback for some
+    code makes that code decodable but not encodable."""
+    from rules import c16
+    R = "C17.R8"
+    try:
+        lab = c16.Lab(repo)
+        defs = definition_refs(lab)
+    except (c16.MachUnknown, AnalysisError) as e:
+        L.extra.setdefault("notes", []).append("[C17.R8] PDU definitions cannot be evaluated value-level: %s" % e)
+        return None
+    except c16.PyRaise as e:
+        raise AnalysisError("evaluating codec.py / trxd_proto.py raises %s" % e.cls_name)
+    fams, ncodes = [], set()
+    for cname, ref, make in defs:
+        bursts = _mod_bursts(ref)
+        if not bursts:
+            continue
+        own = [f for env, f in bursts if env is ref]
+        sub = [f for env, f in bursts if env is not ref]
+        for part, fld in [("main part", f) for f in own] + [("batched sub-PDU", f) for f in sub]:
+            fam = c16.Family(R, cname, "%s '%s' (%s): for every modulation code the length callback assigns a burst length to, a PDU with a burst of "
+                             "exactly that length encodes to header + burst (Field.to_bytes() length check included) and decodes back" % (cname, fld.name, part))
+            fams.append(fam)
+            modelled, noted = None, []
+            try:
+                try:
+                    e = make()
+                except c16.MachUnknown as ex:
+                    e, modelled = None, str(ex)
+                for code in range(16):
+                    flex = []
+                    v = _neutral_vals(ref, code if part == "main part" else 0, flex, () if part == "main part" else (code,))
+                    if v is None:
+                        continue
+                    model = c16.ref_out(lambda: ref.encode(v))      # block semantics with the declared lengths
+                    saved = [(f, f.len) for f in flex]
+                    for f in flex:
+                        f.len = 0
+                    try:
+                        want = c16.ref_out(lambda: ref.encode(v))
+                        back = c16.dec_pair(ref, want[1]) if want[0] == "ok" else None
+                    finally:
+                        for f, n in saved:
+                            f.len = n
+                    if want[0] != "ok":
+                        continue
+                    burst = v.get(fld.name) if part == "main part" else v_sub_burst(v, fld.name)
+                    if burst is None:
+                        continue            # no burst announced for nope = 0: the presence rule (R2) decides that
+                    ncodes.add(code)
+                    what = "mod=0b%s, %d burst octets" % (format(code, "04b"), len(burst))
+                    try:
+                        if modelled:
+                            raise c16.MachUnknown(modelled)
+                        fam.check("to_bytes() of a PDU with %s" % what, lab.e_enc(e, v), want)
+                    except c16.MachUnknown as ex:
+                        # codec.py / trxd_proto.py not evaluable: Field.to_bytes() as C16 decides it, applied to the folded layout
+                        if modelled not in noted:
+                            modelled = str(ex)
+                            noted.append(modelled)
+                            L.extra.setdefault("notes", []).append("[C17.R8] %s: not evaluable (%s); encode direction folded with the modelled Field.to_bytes()" % (cname, modelled[:120]))
+                        fam.check("to_bytes() of a PDU with %s (folded)" % what, model, want)
+                        continue
+                    if back is not None and back[0] == "ok" and back[1][1] == len(want[1]) and all(back[1][0].get(x) == y for x, y in v.items()):
+                        fam.check("from_bytes() of the %d octets of a PDU with %s" % (len(want[1]), what), lab.e_dec(e, want[1]), back)
+            except c16.MachUnknown as ex:
+                fam.unknown = str(ex)
+            except c16.PyRaise as ex:
+                fam.fail("evaluating the definition raises %s outside any modelled outcome" % ex.cls_name)
+            except c16.MachTimeout:
+                fam.fail("evaluating the definition does not terminate (step budget exhausted)")
+    V = commit_families(L, fams, "modulation-driven burst fields evaluated in the encode direction", 5)
+    if not V.unknown:
+        L.floor(R, "modulation codes with a burst length (encode direction)", len(ncodes), 14)
+    return V
+
+
+def v_sub_burst(v, name):
+    for x in v.values():
+        if isinstance(x, list) and x and isinstance(x[0], dict) and name in x[0]:
+            return x[0][name]
+    return None
+
+
 def commit_families(L, fams, what, floor):
     from rules import c16
     n = 0
@@ -1793,3 +1936,5 @@ def run(L, tier):
     if V6 is STAGE_FAILED or V6 is None:
         V6 = c16.Verdict(None, error="PDU definitions not evaluable value-level")
     c16.symbolic(L, V6, r5_sub_pdu_lists, repo)
+    # R8: the encode direction of every modulation-driven burst field, all 16 codes (independent of R6's witnesses)
+    L.stage(r8_encode_by_modulation, L, repo)
